@@ -93,6 +93,89 @@ pub const SEQUENCES: [&str; 12] = [
     "\u{1F600}\u{FE0E}",
 ];
 
+/// Class-representative sample of all of Unicode beyond Latin-1: every scalar value is classified
+/// by the predicates an implementation could plausibly branch on (display width, combining mark,
+/// alphabetic / numeric / whitespace / control / upper / lower case, canonically decomposable, low byte equal
+/// to a byte of the escape-sequence grammar, UTF-8 lead byte, plane), and up to 48 members per class are kept,
+/// spread over the class. `uchar` picks a class uniformly, then a member - so rare classes (a
+/// handful of characters) are drawn as often as huge ones.
+fn uclasses() -> &'static Vec<Vec<char>> {
+    use std::collections::BTreeMap;
+    use std::sync::OnceLock;
+    use unicode_normalization::char::is_combining_mark;
+    use unicode_width::UnicodeWidthChar;
+    static T: OnceLock<Vec<Vec<char>>> = OnceLock::new();
+    T.get_or_init(|| {
+        let mut m: BTreeMap<(u8, u16, u8, u8), Vec<char>> = BTreeMap::new();
+        let mut counts: BTreeMap<(u8, u16, u8, u8), u32> = BTreeMap::new();
+        for cp in 0x100u32..=0x10ffff {
+            let c = match char::from_u32(cp) {
+                Some(c) => c,
+                None => continue,
+            };
+            let w = c.width().map(|w| w as u8).unwrap_or(9);
+            let mut flags = 0u16;
+            for (i, b) in [is_combining_mark(c), c.is_alphabetic(), c.is_numeric(), c.is_whitespace(), c.is_control(), c.is_uppercase(), c.is_lowercase(), { let mut same = true; unicode_normalization::char::decompose_canonical(c, |d| same &= d == c); !same }, c.is_alphanumeric() && !c.is_alphabetic() && !c.is_numeric()]
+                .iter()
+                .enumerate()
+            {
+                if *b {
+                    flags |= 1 << i;
+                }
+            }
+            let low = match (cp & 0xff) as u8 {
+                0x07 | 0x18 | 0x1a | 0x1b | 0x5b | 0x5c | 0x5d | 0x9b | 0x9c | 0x9d | 0x3b | 0x3f | 0x24 | 0x0e | 0x0f | 0x08..=0x0d => 1,
+                b'0'..=b'9' => 2,
+                _ => 0,
+            };
+            let plane = match cp >> 16 {
+                0 => 0,
+                1 => 1,
+                14 => 3,
+                _ => 2,
+            };
+            // the UTF-8 lead byte stands in for "which block" (0xC4..0xDF pooled, then one value
+            // per lead byte 0xE0..0xF4)
+            let lead = {
+                let mut b = [0u8; 4];
+                let first = c.encode_utf8(&mut b).as_bytes()[0];
+                if first < 0xe0 {
+                    0
+                } else {
+                    first
+                }
+            };
+            let plane = plane * 32 + (lead & 0x1f) + if lead >= 0xf0 { 16 } else { 0 };
+            let key = (w, flags, low, plane);
+            let n = counts.entry(key).or_insert(0);
+            *n += 1;
+            let v = m.entry(key).or_default();
+            // keep the first 16 and then every (n/16)-th: members spread over the class
+            if v.len() < 16 || (v.len() < 48 && *n % (1 + *n / 16) == 0) {
+                v.push(c);
+            }
+        }
+        m.into_values().collect()
+    })
+}
+
+/// a character from the class-representative Unicode sample
+pub fn uchar(rng: &mut Rng) -> char {
+    let t = uclasses();
+    let cl = &t[rng.usize(t.len())];
+    cl[rng.usize(cl.len())]
+}
+
+pub fn uclass_count() -> usize {
+    uclasses().len()
+}
+
+/// mode numbers that other terminals give a meaning to (DEC manuals, xterm ctlseqs)
+pub const OTHER_MODES: [u32; 40] = [
+    1, 2, 8, 9, 12, 18, 19, 30, 35, 40, 41, 42, 44, 45, 47, 66, 67, 69, 80, 95, 1000, 1002, 1003, 1004, 1005, 1006, 1015, 1034, 1047, 1048, 1049,
+    2004, 2026, 10, 11, 13, 14, 34, 1007, 9999,
+];
+
 /// a short printable text run
 pub fn text_run(rng: &mut Rng, max: usize) -> String {
     let n = 1 + rng.usize(max.max(1));
@@ -105,12 +188,14 @@ pub fn text_run(rng: &mut Rng, max: usize) -> String {
             ' '
         } else if r < 86 {
             *rng.pick(&NARROW_NONASCII)
-        } else if r < 93 {
+        } else if r < 92 {
             *rng.pick(&WIDE)
-        } else if r < 97 {
+        } else if r < 96 {
             *rng.pick(&COMBINING)
-        } else if r < 98 {
+        } else if r < 97 {
             *rng.pick(&ZEROW[..2])
+        } else if r < 98 {
+            uchar(rng)
         } else {
             s.push_str(*rng.pick(&SEQUENCES[..]));
             continue;
@@ -206,6 +291,29 @@ pub fn setup(rng: &mut Rng, columns: u32, lines: u32, prof: &Profile) -> Vec<Op>
                 if c - x >= 2 && pct(rng, prof.wide, 4) {
                     s.push(*rng.pick(&WIDE));
                     x += 2;
+                } else if rng.below(100) < 3 {
+                    // a character of the class-representative Unicode sample (or a no-break /
+                    // ideographic space) instead of the marker
+                    use unicode_width::UnicodeWidthChar;
+                    let u = match rng.below(4) {
+                        0 => '\u{a0}',
+                        1 => '\u{3000}',
+                        _ => uchar(rng),
+                    };
+                    match u.width() {
+                        Some(1) => {
+                            s.push(u);
+                            x += 1;
+                        }
+                        Some(2) if c - x >= 2 => {
+                            s.push(u);
+                            x += 2;
+                        }
+                        _ => {
+                            s.push(marker(x, y, c));
+                            x += 1;
+                        }
+                    }
                 } else {
                     s.push(marker(x, y, c));
                     x += 1;
@@ -271,6 +379,17 @@ pub fn setup(rng: &mut Rng, columns: u32, lines: u32, prof: &Profile) -> Vec<Op>
         ops.push(Op::Api(Call::DefineCharset(code.into(), mode.into())));
         if rng.bool() {
             ops.push(Op::Api(Call::ShiftOut));
+        }
+    }
+    // mode numbers the emulator does not implement (what xterm and the DEC manuals define for them
+    // is irrelevant: they are recorded and must change nothing, now or later)
+    if rng.below(100) < 15 {
+        for _ in 0..1 + rng.below(2) {
+            let n = if rng.bool() { *rng.pick(&OTHER_MODES) } else { rng.range(0, 130) };
+            let private = rng.below(4) != 0;
+            if !(private && [3u32, 5, 6, 7, 25].contains(&n)) && !(!private && [4u32, 20, 96, 160, 192, 224, 800].contains(&n)) {
+                ops.push(Op::Api(Call::SetMode(vec![n], private)));
+            }
         }
     }
     if rng.below(100) < 55 {
@@ -481,7 +600,7 @@ pub fn mutate(rng: &mut Rng, s: &str) -> String {
                 }
             }
             2 => {
-                v[i] = char::from_u32(rng.below(0x100) as u32).unwrap_or('?');
+                v[i] = if rng.below(4) == 0 { uchar(rng) } else { char::from_u32(rng.below(0x100) as u32).unwrap_or('?') };
             }
             3 => {
                 v.remove(i);
@@ -594,6 +713,62 @@ pub fn random_cuts(rng: &mut Rng, n: usize, k: usize) -> Vec<usize> {
     let mut c: Vec<usize> = (0..k).map(|_| rng.usize(n + 1)).collect();
     c.sort();
     c
+}
+
+/// `s` = one control sequence (`ESC [` or U+009B ... final) possibly followed by text: the same
+/// sequence with `pad` zeros in front of every parameter (leading zeros are not significant).
+/// None if `s` is not of that shape.
+pub fn pad_params(s: &str, pad: usize) -> Option<String> {
+    let rest = s.strip_prefix("\x1b[").or_else(|| s.strip_prefix('\u{9b}'))?;
+    let intro = &s[..s.len() - rest.len()];
+    let mut out = String::from(intro);
+    let mut in_digits = false;
+    let mut done = false;
+    let mut padded = false;
+    for ch in rest.chars() {
+        if !done {
+            if ch.is_ascii_digit() {
+                if !in_digits {
+                    out.push_str(&"0".repeat(pad));
+                    padded = true;
+                }
+                in_digits = true;
+            } else {
+                in_digits = false;
+                if ('@'..='~').contains(&ch) || (ch as u32) < 0x20 {
+                    done = true;
+                }
+            }
+        }
+        out.push(ch);
+    }
+    if padded {
+        Some(out)
+    } else {
+        None
+    }
+}
+
+/// the SGR list that makes the cursor rendition equal to `a` (from any rendition)
+pub fn sgr_of(a: &crate::snapshot::Attr) -> Vec<u32> {
+    use crate::snapshot::{Col, BLINK, BOLD, ITALICS, REVERSE, STRIKE, UNDERSCORE};
+    let mut v = vec![0u32];
+    for (bit, code) in [(BOLD, 1u32), (ITALICS, 3), (UNDERSCORE, 4), (BLINK, 5), (STRIKE, 9)] {
+        if a.flags & bit != 0 {
+            v.push(code);
+        }
+    }
+    // SGR 0 gives the screen's default (reverse under DECSCNM): state reverse explicitly
+    v.push(if a.flags & REVERSE != 0 { 7 } else { 27 });
+    for (col, base, bright, ext) in [(&a.fg, 30u32, 90u32, 38u32), (&a.bg, 40, 100, 48)] {
+        match col {
+            Col::Named(i) if *i < 8 => v.push(base + *i as u32),
+            Col::Named(i) => v.push(bright + (*i as u32 - 8)),
+            Col::Rgb(x) => v.extend([ext, 2, (x >> 16) & 0xff, (x >> 8) & 0xff, x & 0xff]),
+            _ => {}
+        }
+    }
+    v
 }
 
 /// One or two operations that change, by a route of their own, state that other operations
